@@ -89,8 +89,8 @@ theorem greachable_grun (x : GSys) (ops : List Op) (h : GReachable x) : GReachab
 
 /-- Non-vacuity: a reachable state with a quiescent peer whose view holds a wanted CID. -/
 def sampleOps : List Op :=
-  [.connect 1 1, .get 7 true, .drain (fun _ => none), .complete 0 .miss, .drain (fun _ => none),
-   .sending 1 .ready, .drain (fun _ => none), .sending 1 .ready, .drain (fun _ => none)]
+  [.connect 1 1, .get 7 true, .drain (fun _ => some 1), .complete 0 .miss, .drain (fun _ => some 1),
+   .sending 1 1 .ready, .drain (fun _ => some 1), .sending 1 1 .ready, .drain (fun _ => some 1)]
 
 example : GReachable (grun {} sampleOps).1 := greachable_grun _ _ GReachable.init
 
